@@ -36,7 +36,7 @@ def one(bid):
 
 
 def main():
-  args = [a for a in sys.argv[1:] if not a.startswith("--")]
+  args = [a for a in sys.argv[1:] if not a.startswith("-")]
   jobs = int(sys.argv[sys.argv.index("--jobs") + 1]) if "--jobs" in sys.argv else 16
   if "--jobs" in sys.argv:
     args = [a for a in args if a != sys.argv[sys.argv.index("--jobs") + 1]]
